@@ -42,6 +42,7 @@ class Contract:
         self.self_cls = kw.pop("self_cls", None)
         self.fields = kw.pop("fields", None)
         self.replay = kw.pop("replay", None)
+        self.instances = kw.pop("instances", None)   # list of dicts: concrete values for ghost names
         self.unexpected_ok = kw.pop("unexpected_ok", [])  # exception classes that may escape unspecified
         if kw:
             raise TypeError("unknown contract keys %r for %s" % (list(kw), qualname))
